@@ -1,7 +1,7 @@
 use std::collections::VecDeque;
 use std::fmt;
-use std::io;
 use std::io::Write;
+use std::io::{self, IsTerminal};
 
 use crate::config::{Color, Config, Verbosity};
 
@@ -149,8 +149,14 @@ impl OutputWriter {
     // Create a new OutputWriter instance based on the caller's preference
     // for colorized output and the capabilities of the terminal.
     pub(crate) fn new(color: Color) -> Self {
+        // `Auto` colours what a person reads, not what is piped into a file or another program.
+        let wanted = match color {
+            Color::Always => true,
+            Color::Auto => io::stdout().is_terminal(),
+            Color::Never => false,
+        };
         if let Some(t) = term::stdout() {
-            if color.use_colored_tty() && t.supports_color() {
+            if wanted && t.supports_color() {
                 return OutputWriter { terminal: Some(t) };
             }
         }
